@@ -65,6 +65,14 @@ var c20Templates = []string{
 	"p{% if x %}{% raw %}r{% endraw %}{% endif %}q{% if x %}s{% comment %}c{% endcomment %}{% endif %}",
 	"t{% for i in (1..2) %}{% endfor %}u{% capture c %}{% endcapture %}v{% case x %}{% when 1 %}{% endcase %}w",
 	"{% tablerow i in (1..2) %}{% endtablerow %}{% tablerow i in (1..2) %}{{ i -}}{% endtablerow %}",
+	// blocks that start after the first line (their nodes carry a location): flushes and trim writes inside
+	"head\n{% if x %}body{% endif %}tail",
+	"a\n\n{% for i in (1..2) %}\n{{ i -}} \n{%- if x %} p{% endif %}{% endfor %}z",
+	"t\n{% if x %}{% raw %}r{% endraw %}{% endif %}\n{% unless x %}{% else %}e{% endunless %}",
+	// left-trim markers whose pending text is empty or all whitespace: zero-length writes
+	"{{- x }} tail",
+	"{{ x -}} \n {%- assign y = 1 %}",
+	"  \n{{- x }}{%- if x -%}  {%- endif -%}  {{- y }}",
 }
 
 func c20Engine() *Engine {
@@ -81,7 +89,15 @@ func VerifC20Fault() {
 	t := c20Templates[nd.Choice(len(c20Templates))]
 	b := Bindings{"x": 1, "y": "yy"}
 	e := c20Engine()
+	located := nd.Choice(2) == 1
+	if t == "{% include 'inc.html' %}after" {
+		nd.Assume(!located) // the included source is registered for the unlocated spelling
+	}
 	tpl, perr := e.ParseTemplate([]byte(t))
+	if located {
+		// parsed with a path and a starting line: every node has a non-zero location
+		tpl, perr = e.ParseTemplateLocation([]byte(t), "dir/t.html", 5)
+	}
 	nd.Assert(perr == nil, "parses")
 	if perr != nil {
 		return
@@ -117,8 +133,10 @@ func VerifC20Fault() {
 		nd.Assert(w.after == 0, "no-write-after-failure")
 	}
 	// ParseAndFRender behaves the same way
-	w2 := &c20Writer{k: w.k, m: w.m, part: w.part}
-	err2 := e.ParseAndFRender(w2, []byte(t), b)
-	nd.Assert((err2 == nil) == (err == nil) && string(w2.got) == got, "parse-and-frender-agrees")
+	if !located {
+		w2 := &c20Writer{k: w.k, m: w.m, part: w.part}
+		err2 := e.ParseAndFRender(w2, []byte(t), b)
+		nd.Assert((err2 == nil) == (err == nil) && string(w2.got) == got, "parse-and-frender-agrees")
+	}
 	nd.Reach("C20.fault")
 }
